@@ -1,15 +1,11 @@
-"""Registry: which harnesses and Coq targets decide which property."""
+"""Registry: one JSON file per property under lib/props.d (keys: check,
+manifest, engine_entry)."""
+import glob
+import json
+import os
 
-PROPS = {
-    "C19": {
-        "level": "proof",
-        "engines": [{"cmd": "c19", "n_quick": 4000, "n_thorough": 120000, "shard": 500}],
-        "coq_targets": ["theories/Check/C19Check.vo"],
-        "assumptions": [
-            "ASCII restriction: the model's unicode classification is Go's restricted to code points < 128; "
-            "generated inputs compared with the model stay inside ASCII",
-            "cases.Title(language.English, cases.NoLower) upper-cases the first rune of a lower-case ASCII word "
-            "(validated by comparing encoder outputs on every round-trip case)",
-        ],
-    },
-}
+_D = os.path.join(os.path.dirname(os.path.abspath(__file__)), "props.d")
+ENTRIES = {}
+for _f in sorted(glob.glob(os.path.join(_D, "C*.json"))):
+    ENTRIES[os.path.basename(_f)[:-5]] = json.load(open(_f))
+PROPS = {k: v["check"] for k, v in ENTRIES.items()}
